@@ -210,6 +210,9 @@ func check(raw json.RawMessage, c *ucase) {
 	case "harmonise":
 		harmonise(raw, c)
 		return
+	case "crossfamily":
+		crossFamily(raw, c)
+		return
 	case "unknown":
 		v, _ := value(k.Cls, unit{}, unit{})
 		got, u := measurement.Scale(v, k.Spelling, k.ToSpelling)
@@ -295,6 +298,29 @@ func check(raw json.RawMessage, c *ucase) {
 		if p1 != p2 || p1 != p3 {
 			run.Violate("percentage", "percentage-sign", fmt.Sprintf("Percentage(%d, %d) = %q, with negated value %q, with negated total %q", v, 7*v, p1, p2, p3), raw, nil)
 		}
+	}
+}
+
+// profiles whose units belong to different families must not be harmonised: an error, nothing relabelled
+func crossFamily(raw json.RawMessage, c *ucase) {
+	k := c.Case
+	ua, ub := c.Units[k.From-1], c.Units[k.To-1]
+	spellOut := func(u unit) string { return u.Aliases[len(u.Aliases)-1] }
+	run.Count("cross|" + ua.Name + "|" + ub.Name)
+	mk := func(u unit, v int64) *profile.Profile {
+		return &profile.Profile{SampleType: []*profile.ValueType{{Type: "t", Unit: spellOut(u)}},
+			PeriodType: &profile.ValueType{Type: "t", Unit: spellOut(u)}, Period: 1, Sample: []*profile.Sample{{Value: []int64{v}}}}
+	}
+	ps := []*profile.Profile{mk(ua, 5000), mk(ub, 7)}
+	if vt, err := measurement.CommonValueType([]*profile.ValueType{ps[0].SampleType[0], ps[1].SampleType[0]}); err == nil {
+		run.Violate("harmonise", "cross-family-common-type", fmt.Sprintf("CommonValueType(%s, %s) = %v without an error: the units belong to different families", spellOut(ua), spellOut(ub), vt), raw, nil)
+	}
+	err := measurement.ScaleProfiles(ps)
+	if err == nil {
+		run.Violate("harmonise", "cross-family-scaled", fmt.Sprintf("ScaleProfiles harmonised %s with %s: now %d %s and %d %s", spellOut(ua), spellOut(ub),
+			ps[0].Sample[0].Value[0], ps[0].SampleType[0].Unit, ps[1].Sample[0].Value[0], ps[1].SampleType[0].Unit), raw, nil)
+	} else if ps[0].Sample[0].Value[0] != 5000 || ps[1].Sample[0].Value[0] != 7 || ps[0].SampleType[0].Unit != spellOut(ua) || ps[1].SampleType[0].Unit != spellOut(ub) {
+		run.Violate("harmonise", "cross-family-touched", "ScaleProfiles failed but changed a profile", raw, nil)
 	}
 }
 
